@@ -603,6 +603,14 @@ class Emitter:
                 return t
             return '(%s %s %s)' % (sa, op, sb)
         if op == ',': raise Unsupported('comma operator')
+        if op in ('<', '>', '<=', '>=') and self.qt(a).rstrip().endswith('*') and self.qt(b).rstrip().endswith('*'):
+            # relational comparison of two pointers into the same array (possibly one before / one past it): compared by
+            # signed byte offset.  CBMC's own pointer '<' treats the offset of `base - 1` as a huge unsigned value.
+            return '(ST_PTR_OFF(%s) %s ST_PTR_OFF(%s))' % (self.e(a), op, self.e(b))
+        if op == '-' and self.qt(a).rstrip().endswith('*') and self.qt(b).rstrip().endswith('*'):
+            # pointer difference inside one array, same reason (CBMC: offset of `base - 1` is 2^54 - 1, not -1)
+            et = self.ty.cast(self.qt(a).rstrip()[:-1].strip())
+            return '((ST_PTR_OFF(%s) - ST_PTR_OFF(%s)) / (ssize_t)sizeof(%s))' % (self.e(a), self.e(b), et.replace('const ', '') if et.replace('const ', '').strip() != 'void' else 'char')
         return '(%s %s %s)' % (self.e(a), op, self.e(b))
     e_CompoundAssignOperator = e_BinaryOperator
     def e_ConditionalOperator(self, n):
